@@ -1,5 +1,6 @@
 (* driver.ml — line protocol between the harness and the extracted Coq model.
    One command per input line, one canonical observation per output line. *)
+type ostring = String.t
 open Model
 
 (* ---------- conversions between OCaml values and Coq inductives ---------- *)
@@ -12,7 +13,7 @@ let rec int_of_nat = function O -> 0 | S k -> 1 + int_of_nat k
 
 (* arbitrary-size integers travel as hex strings *)
 let hexval c = match c with '0'..'9' -> Char.code c - 48 | 'a'..'f' -> Char.code c - 87 | 'A'..'F' -> Char.code c - 55 | _ -> failwith "hex"
-let pos_of_hex (s : string) : positive option =
+let pos_of_hex (s : ostring) : positive option =
   (* most significant digit first *)
   let acc = ref None in
   String.iter (fun c ->
@@ -49,11 +50,11 @@ let hex_of_pos p =
 let str_of_n = function N0 -> "0" | Npos p -> hex_of_pos p
 let str_of_z = function Z0 -> "0" | Zpos p -> hex_of_pos p | Zneg p -> "-" ^ hex_of_pos p
 
-let bytes_of_hex (s : string) : n list =
+let bytes_of_hex (s : ostring) : n list =
   let s = if s = "-" then "" else s in
   let n = String.length s / 2 in
   List.init n (fun i -> n_of_int (hexval s.[2*i] * 16 + hexval s.[2*i+1]))
-let hex_of_bytes (l : n list) : string =
+let hex_of_bytes (l : n list) : ostring =
   if l = [] then "-" else
   let buf = Buffer.create 64 in
   List.iter (fun b -> let v = int_of_n b in
@@ -81,7 +82,7 @@ let exn_of_name = function
 
 (* ---------- reader ---------- *)
 (* oracle table: proto:rawhex:outcome,...   outcome = OK | <exception name> *)
-let parse_table (s : string) : (int * string, string) Hashtbl.t =
+let parse_table (s : ostring) : (int * ostring, ostring) Hashtbl.t =
   let h = Hashtbl.create 16 in
   if s <> "-" then
     List.iter (fun e ->
@@ -95,21 +96,84 @@ let oracle tbl (proto : n) (raw : n list) : bool result =
   | Some "NONE" -> Ok false      (* the parser returned None rather than raising *)
   | Some nm -> Raise (exn_of_name nm)
   | None -> Raise EOther      (* the implementation never asked its parser about this frame *)
-let nmea_fn (s : string) : n -> bool =
-  let l = List.map int_of_n (bytes_of_hex s) in fun b -> List.mem (int_of_n b) l
+let nmea_fn (s : ostring) : n -> bool =
+  let l = if s = "C" then List.map int_of_n nmea_hdr2 else List.map int_of_n (bytes_of_hex s) in
+  fun b -> List.mem (int_of_n b) l
 let mk_cfg pf qe parsing = { protfilter = n_of_int (int_of_string pf); quitonerror = n_of_int (int_of_string qe); parsing = (parsing = "1") }
-let show_run (r : ('s, bool) run) (final : string) : string =
+let show_run (r : ('s, bool) run) (final : ostring) : ostring =
   let items = String.concat "," (List.map (fun (raw, p) -> hex_of_bytes raw ^ (match p with Some true -> ":1" | _ -> ":0")) r.items) in
   let reps = String.concat "," (List.map exn_name r.reports) in
   Printf.sprintf "ITEMS %s REPORTS %s RAISED %s FINAL %s FUEL %d"
     (if items = "" then "-" else items) (if reps = "" then "-" else reps)
     (match r.raised with None -> "None" | Some e -> exn_name e) final (if r.out_of_fuel then 1 else 0)
-let events_of_string (s : string) : ev list =
+let events_of_string (s : ostring) : ev list =
   if s = "-" then [] else
   List.map (fun e -> if e = "F" then Fail else if e = "E" then Chunk [] else Chunk (bytes_of_hex e)) (String.split_on_char ',' s)
 
+
+(* ---------- Coq strings ---------- *)
+let char_of_ascii (Ascii (b0,b1,b2,b3,b4,b5,b6,b7)) =
+  let v b i = if b then 1 lsl i else 0 in
+  Char.chr (v b0 0 + v b1 1 + v b2 2 + v b3 3 + v b4 4 + v b5 5 + v b6 6 + v b7 7)
+let ascii_of_char c =
+  let n = Char.code c in let b i = (n lsr i) land 1 = 1 in
+  Ascii (b 0, b 1, b 2, b 3, b 4, b 5, b 6, b 7)
+let rec ostr (s : Model.string) : ostring =
+  let buf = Buffer.create 16 in
+  let rec go = function EmptyString -> () | String (a, t) -> Buffer.add_char buf (char_of_ascii a); go t in
+  go s; Buffer.contents buf
+let cstr (s : ostring) : Model.string =
+  let r = ref EmptyString in
+  for i = String.length s - 1 downto 0 do r := String (ascii_of_char s.[i], !r) done; !r
+
+(* ---------- Python values on the wire ----------
+   I:<hex int> F:<16 hex bits> B:<hex> S:<hex utf8> L:<v|v|...> (L:- empty) N O *)
+let hex16 (zb : z) : ostring =
+  let s = str_of_z zb in String.make (16 - String.length s) '0' ^ s
+let rec show_val (v : pyval) : ostring =
+  match v with
+  | PInt zz -> "I:" ^ str_of_z zz
+  | PFloat f -> (match f with S754_nan -> "F:nan" | _ -> "F:" ^ hex16 (bits_of_b64 f))
+  | PBytes b -> "B:" ^ hex_of_bytes b
+  | PStr b -> "S:" ^ hex_of_bytes b
+  | PList l -> "L:" ^ (if l = [] then "-" else String.concat "|" (List.map show_val l))
+  | PNone -> "N"
+  | POther -> "O"
+let rec read_val (s : ostring) : pyval =
+  if s = "N" then PNone else if s = "O" then POther else
+  let tag = s.[0] and body = String.sub s 2 (String.length s - 2) in
+  match tag with
+  | 'I' -> PInt (z_of_str body)
+  | 'F' -> if body = "nan" then PFloat S754_nan else PFloat (b64_of_bits (z_of_str body))
+  | 'B' -> PBytes (bytes_of_hex body)
+  | 'S' -> PStr (bytes_of_hex body)
+  | 'L' -> if body = "-" then PList [] else PList (List.map read_val (String.split_on_char '|' body))
+  | _ -> failwith "val"
+let show_attrs (a : (Model.string * pyval) list) : ostring =
+  String.concat " " (List.map (fun (k, v) -> ostr k ^ "=" ^ show_val v) a)
+let read_kv (t : ostring) : Model.string * pyval =
+  match String.index_opt t '=' with
+  | Some i -> (cstr (String.sub t 0 i), read_val (String.sub t (i + 1) (String.length t - i - 1)))
+  | None -> failwith "kv"
+(* attribute type on the wire: CH | <letter code>:<size or n> *)
+let read_aty (s : ostring) : aty =
+  if s = "CH" then TCH else
+  match String.split_on_char ':' s with
+  | [l; "n"] -> T (n_of_int (int_of_string l), None)
+  | [l; k] -> T (n_of_int (int_of_string l), Some (nat_of_int (int_of_string k)))
+  | _ -> failwith "aty"
+let show_msg (m : msg) : ostring =
+  Printf.sprintf "OK cls=%s id=%s mode=%d payload=%s len=%s ident=%s ser=%s | %s"
+    (hex_of_bytes m.m_cls) (hex_of_bytes m.m_id) (int_of_n m.m_mode) (opt_bytes m.m_payload)
+    (str_of_z (msg_length m)) (ostr (msg_identity m)) (hex_of_bytes (serialize m)) (show_attrs m.m_attrs)
+let show_res = function Ok m -> show_msg m | Raise e -> "RAISE " ^ exn_name e
+let read_key (t : ostring) : cfgkey =
+  if String.length t > 2 && t.[0] = 'K' then KId (z_of_str (String.sub t 2 (String.length t - 2)))
+  else KName (cstr (String.sub t 2 (String.length t - 2)))
+let show_float (f : spec_float) = show_val (PFloat f)
+
 (* ---------- commands ---------- *)
-let handle (toks : string list) : string =
+let handle (toks : ostring list) : ostring =
   match toks with
   | ["CK"; h] -> hex_of_bytes (fletcher (bytes_of_hex h))
   | ["CKSPEC"; h] -> hex_of_bytes (fletcher_spec (bytes_of_hex h))
@@ -128,8 +192,57 @@ let handle (toks : string list) : string =
       show_run r (hex_of_bytes r.final)
   | ["SOCK"; pf; qe; parsing; nm; evs; table] ->
       let r = sock_run (oracle (parse_table table)) (nmea_fn nm) (mk_cfg pf qe parsing) (events_of_string evs) in
-      show_run r (hex_of_bytes (abs r.final))
+      show_run r (hex_of_bytes (sock_abs r.final))
   | ["PROTOCOL"; nm; h] -> string_of_int (int_of_n (protocol (nmea_fn nm) (bytes_of_hex h)))
+  | "PARSE" :: mode :: v :: bf :: [h] ->
+      show_res (parse (n_of_int (int_of_string mode)) (n_of_int (int_of_string v)) (bf = "1") (bytes_of_hex h))
+  | "PARSERT" :: mode :: v :: bf :: [h] ->
+      (match parse (n_of_int (int_of_string mode)) (n_of_int (int_of_string v)) (bf = "1") (bytes_of_hex h) with
+       | Raise e -> "RAISE " ^ exn_name e
+       | Ok m -> (match repr_construct m with
+                  | Raise e -> "REPR-RAISE " ^ exn_name e
+                  | Ok m2 -> "OK " ^ hex_of_bytes (serialize m2)))
+  | "CONSTRUCT" :: c :: i :: mode :: bf :: "PAYLOAD" :: [p] ->
+      show_res (construct (bytes_of_hex c) (bytes_of_hex i) (n_of_int (int_of_string mode)) (bf = "1") (KwPayload (bytes_of_hex p)))
+  | "CONSTRUCT" :: c :: i :: mode :: bf :: ["NONE"] ->
+      show_res (construct (bytes_of_hex c) (bytes_of_hex i) (n_of_int (int_of_string mode)) (bf = "1") KwNone)
+  | "BUILD" :: c :: i :: mode :: bf :: kvs ->
+      show_res (construct (bytes_of_hex c) (bytes_of_hex i) (n_of_int (int_of_string mode)) (bf = "1") (KwAttrs (List.map read_kv kvs)))
+  | ["NAMED"; c; i] ->
+      (match msgstr2bytes (cstr c) (cstr i) with
+       | Ok (a, b) -> "OK " ^ hex_of_bytes a ^ " " ^ hex_of_bytes b | Raise e -> "RAISE " ^ exn_name e)
+  | ["INTS"; c; i] ->
+      (match msgclass2bytes (z_of_str c) (z_of_str i) with
+       | Ok (a, b) -> "OK " ^ hex_of_bytes a ^ " " ^ hex_of_bytes b | Raise e -> "RAISE " ^ exn_name e)
+  | "CFGSET" :: l :: t :: items ->
+      show_res (config_set (z_of_str l) (z_of_str t)
+        (List.map (fun it -> match String.index_opt it '=' with
+           | Some i -> (read_key (String.sub it 0 i), read_val (String.sub it (i+1) (String.length it - i - 1)))
+           | None -> failwith "item") items))
+  | "CFGDEL" :: l :: t :: keys -> show_res (config_del (z_of_str l) (z_of_str t) (List.map read_key keys))
+  | "CFGPOLL" :: l :: t :: keys -> show_res (config_poll (z_of_str l) (z_of_str t) (List.map read_key keys))
+  | ["CFGNAME2KEY"; nm] ->
+      (match cfgname2key (cstr nm) with
+       | Ok (k, t) -> "OK " ^ str_of_z k ^ " " ^ (match attsiz t with Ok zz -> str_of_z zz | Raise _ -> "n") ^ " " ^ string_of_int (int_of_n (letter_of t))
+       | Raise e -> "RAISE " ^ exn_name e)
+  | ["CFGKEY2NAME"; k] ->
+      (match cfgkey2name_ (z_of_str k) with
+       | Ok (nm, t) -> "OK " ^ ostr nm ^ " " ^ (match attsiz t with Ok zz -> str_of_z zz | Raise _ -> "n") ^ " " ^ string_of_int (int_of_n (letter_of t))
+       | Raise e -> "RAISE " ^ exn_name e)
+  | ["INPUTMODE"; h] -> string_of_int (int_of_n (getinputmode (bytes_of_hex h)))
+  | ["IDENT"; c; i; p] ->
+      ostr (identity (bytes_of_hex c) (bytes_of_hex i) (if p = "None" then None else Some (bytes_of_hex p)))
+  | ["V2B"; t; v] -> (match v2b (read_val v) (read_aty t) with Ok b -> "OK " ^ hex_of_bytes b | Raise e -> "RAISE " ^ exn_name e)
+  | ["B2V"; t; h] -> (match bytes2val (bytes_of_hex h) (read_aty t) with Ok v -> "OK " ^ show_val v | Raise e -> "RAISE " ^ exn_name e)
+  | ["NOMVAL"; t] -> (match nomval (read_aty t) with Ok v -> "OK " ^ show_val v | Raise e -> "RAISE " ^ exn_name e)
+  | ["ROUND"; nd; f] -> (match py_round_nd (z_of_str nd) (b64_of_bits (z_of_str f)) with Ok r -> "OK " ^ show_float r | Raise e -> "RAISE " ^ exn_name e)
+  | ["FMUL"; a; b] -> show_float (fmul (b64_of_bits (z_of_str a)) (b64_of_bits (z_of_str b)))
+  | ["FADD"; a; b] -> show_float (fadd (b64_of_bits (z_of_str a)) (b64_of_bits (z_of_str b)))
+  | ["FDIV"; a; b] -> (match fdiv (b64_of_bits (z_of_str a)) (b64_of_bits (z_of_str b)) with Ok r -> "OK " ^ show_float r | Raise e -> "RAISE " ^ exn_name e)
+  | ["IDIV"; a; b] -> (match int_truediv (z_of_str a) (z_of_str b) with Ok r -> "OK " ^ show_float r | Raise e -> "RAISE " ^ exn_name e)
+  | ["FOFZ"; a] -> show_float (f_of_Z (z_of_str a))
+  | ["INTOF"; f] -> (match py_int_of_float (b64_of_bits (z_of_str f)) with Ok r -> "OK " ^ str_of_z r | Raise e -> "RAISE " ^ exn_name e)
+  | ["ROUNDINT"; f] -> (match py_round_int (b64_of_bits (z_of_str f)) with Ok r -> "OK " ^ str_of_z r | Raise e -> "RAISE " ^ exn_name e)
   | _ -> "ERR unknown command"
 
 let () =
